@@ -126,6 +126,22 @@ def run(shard, ctx):
                 for flats in (0, 5, 1, n_ // 2, n_ - 1):
                     check_name(ctx, L_ + "#" * (n_ - flats) + "b" * flats)
                     check_name(ctx, L_ + "b" + "#" * flats + "b" * (n_ - flats - 1))
+        # many distinct long names in one process (more than a bounded memo is likely to hold)
+        rng_v = ctx.rng("volume")
+        bad = None
+        for k in range(6000):
+            nm = "CDEFGAB"[k % 7] + "".join(rng_v.choice("#b") for _ in range(130 + k % 40))
+            st, v = ctx.call(notes.note_to_int, nm)
+            if not (st == "ok" and v == T.pc(nm)):
+                bad = (k, repr(v)[:160])
+                break
+            if k % 53 == 0:
+                st, r = ctx.call(notes.reduce_accidentals, nm)
+                if not (st == "ok" and T.valid(r) and T.pc(r) == T.pc(nm)):
+                    bad = (k, repr(r)[:160])
+                    break
+        ctx.check("pitch class = natural + sharps - flats (mod 12)", bad is None, {"distinct_long_names_so_far": bad[0] if bad else None}, None,
+                  bad[1] if bad else None, mechanism="pc:many-distinct-long-names")
         rng = ctx.rng("unicode")
         pools = ["ABCDEFG#b", "abcdefgh#b", "CDE#b♭♯\U0001d12a", "0123456789-", " \t\n", "C#b" * 3]
         for i in range(shard["random"]):
